@@ -1,24 +1,356 @@
-(** C11 — totality: the model returns [PanicV] exactly where the documentation says the call panics.
-    These are corollaries of the model = spec table theorems of the owning properties (the spec tables say [PanicV]
-    exactly in the documented cases and [NoneV]/[ErrV] for the option/result-returning forms). *)
-From CB Require Import Model.Limbs Model.Mul Proofs.WordP Proofs.LimbsP Proofs.MulApiP.
-From Coq Require Import ZArith List.
-Open Scope Z_scope.
+(** C11 -- totality: panics, overflow traps and assertion failures only where documented.
 
-(** the `*` operator on Uint panics exactly on overflow; checked_mul never panics *)
-Lemma uint_mul_panics_iff x y dbg : wf x -> wf y ->
-  (op_of ops_mul_model "uint.mul" dbg [x; y] = PanicV <-> sp_fits (length x) (eval x * eval y) = false) /\
-  op_of ops_mul_model "uint.checked_mul" dbg [x; y] <> PanicV.
+    For every area (= one Model/<Area>.v with its model table, the Gallina transcription of the Rust code with a
+    build-profile argument [dbg], and its spec table, which says [PanicV] exactly where the documentation says the call
+    panics and [Unsupported] outside the documented domain):
+
+      C11_<area>_panics_iff_documented   : for every key of the table, every profile and every well-formed argument list
+                                           inside the documented domain, the model panics iff the documentation says so;
+      C11_<area>_total_forms_never_panic : the option / result / flag returning forms never panic, whatever the values;
+      C11_key_lists_cover_tables         : the key lists are the complete key sets of the tables.
+
+    [typed ty k a] is the typing side condition of key k (what Rust's types enforce: equal limb counts of two Uint<N>,
+    a Limb is one word, BITS and a u32 shift are below 2^32 ...), spelled out per key in Proofs/TotalityP.v; a key that
+    has no entry in [ty] has no side condition.  Then the internal facts the anchors of the property point at. *)
+From CB Require Import Model.Limbs Model.AddSub Model.Mul Model.Div Model.Bits Model.Cmp Model.ModArith Model.IntArith
+  Model.IntDiv Model.Conv Model.Rand Model.Sqrt
+  Proofs.WordP Proofs.LimbsP Proofs.MulApiP Proofs.TotalityP Proofs.TotalityAddSubP Proofs.TotalityMulP Proofs.TotalityDivP
+  Proofs.TotalityBitsP Proofs.TotalityCmpP Proofs.TotalityModArithP Proofs.TotalityIntP Proofs.TotalityConvP
+  Proofs.TotalityRandP Proofs.TotalitySqrtP Proofs.DivP Proofs.AddSubP Proofs.TotalityDivAssertP Proofs.TotalityChoiceP.
+From Coq Require Import ZArith List String.
+Open Scope Z_scope. Open Scope string_scope.
+Notation length := List.length.
+
+(* ================================================================== addsub *)
+Theorem C11_addsub_panics_iff_documented : forall k dbg a,
+  In k addsub_keys -> wf_args a -> typed addsub_ty k a -> run_tab ops_addsub_spec k dbg a <> Unsupported ->
+  (run_tab ops_addsub_model k dbg a = PanicV <-> run_tab ops_addsub_spec k dbg a = PanicV).
+Proof. exact addsub_panics_iff_documented. Qed.
+Print Assumptions C11_addsub_panics_iff_documented.
+
+Theorem C11_addsub_total_forms_never_panic : forall k dbg a,
+  In k addsub_total_keys -> typed addsub_total_ty k a -> run_tab ops_addsub_model k dbg a <> PanicV.
+Proof. exact addsub_total_forms_never_panic. Qed.
+Print Assumptions C11_addsub_total_forms_never_panic.
+
+(* ================================================================== mul *)
+Theorem C11_mul_panics_iff_documented : forall k dbg a,
+  In k mul_keys -> wf_args a -> typed mul_ty k a -> run_tab ops_mul_spec k dbg a <> Unsupported ->
+  (run_tab ops_mul_model k dbg a = PanicV <-> run_tab ops_mul_spec k dbg a = PanicV).
+Proof. exact mul_panics_iff_documented. Qed.
+Print Assumptions C11_mul_panics_iff_documented.
+
+Theorem C11_mul_total_forms_never_panic : forall k dbg a,
+  In k mul_total_keys -> typed mul_total_ty k a -> run_tab ops_mul_model k dbg a <> PanicV.
+Proof. exact mul_total_forms_never_panic. Qed.
+Print Assumptions C11_mul_total_forms_never_panic.
+
+(* ================================================================== div *)
+Theorem C11_div_panics_iff_documented : forall k dbg a,
+  In k div_keys -> wf_args a -> typed div_ty k a -> run_tab ops_div_spec k dbg a <> Unsupported ->
+  (run_tab ops_div_model k dbg a = PanicV <-> run_tab ops_div_spec k dbg a = PanicV).
+Proof. exact div_panics_iff_documented. Qed.
+Print Assumptions C11_div_panics_iff_documented.
+
+Theorem C11_div_total_forms_never_panic : forall k dbg a,
+  In k div_total_keys -> typed div_total_ty k a -> run_tab ops_div_model k dbg a <> PanicV.
+Proof. exact div_total_forms_never_panic. Qed.
+Print Assumptions C11_div_total_forms_never_panic.
+
+(* ================================================================== bits *)
+Theorem C11_bits_panics_iff_documented : forall k dbg a,
+  In k bits_keys -> wf_args a -> typed bits_ty k a -> run_tab Bits.ops_bits_spec k dbg a <> Unsupported ->
+  (run_tab Bits.ops_bits_model k dbg a = PanicV <-> run_tab Bits.ops_bits_spec k dbg a = PanicV).
+Proof. exact bits_panics_iff_documented. Qed.
+Print Assumptions C11_bits_panics_iff_documented.
+
+Theorem C11_bits_total_forms_never_panic : forall k dbg a,
+  In k bits_total_keys -> typed bits_total_ty k a -> run_tab Bits.ops_bits_model k dbg a <> PanicV.
+Proof. exact bits_total_forms_never_panic. Qed.
+Print Assumptions C11_bits_total_forms_never_panic.
+
+(* ================================================================== cmp *)
+Theorem C11_cmp_panics_iff_documented : forall k dbg a,
+  In k cmp_keys -> wf_args a -> typed cmp_ty k a -> run_tab ops_cmp_spec k dbg a <> Unsupported ->
+  (run_tab ops_cmp_model k dbg a = PanicV <-> run_tab ops_cmp_spec k dbg a = PanicV).
+Proof. exact cmp_panics_iff_documented. Qed.
+Print Assumptions C11_cmp_panics_iff_documented.
+
+Theorem C11_cmp_total_forms_never_panic : forall k dbg a,
+  In k cmp_total_keys -> typed cmp_total_ty k a -> run_tab ops_cmp_model k dbg a <> PanicV.
+Proof. exact cmp_total_forms_never_panic. Qed.
+Print Assumptions C11_cmp_total_forms_never_panic.
+
+(* ================================================================== modarith *)
+Theorem C11_modarith_panics_iff_documented : forall k dbg a,
+  In k modarith_keys -> wf_args a -> typed modarith_ty k a -> run_tab ops_modarith_spec k dbg a <> Unsupported ->
+  (run_tab ops_modarith_model k dbg a = PanicV <-> run_tab ops_modarith_spec k dbg a = PanicV).
+Proof. exact modarith_panics_iff_documented. Qed.
+Print Assumptions C11_modarith_panics_iff_documented.
+
+Theorem C11_modarith_total_forms_never_panic : forall k dbg a,
+  In k modarith_total_keys -> typed modarith_total_ty k a -> run_tab ops_modarith_model k dbg a <> PanicV.
+Proof. exact modarith_total_forms_never_panic. Qed.
+Print Assumptions C11_modarith_total_forms_never_panic.
+
+(* ================================================================== intarith *)
+Theorem C11_intarith_panics_iff_documented : forall k dbg a,
+  In k intarith_keys -> wf_args a -> typed intarith_ty k a -> run_tab ops_intarith_spec k dbg a <> Unsupported ->
+  (run_tab ops_intarith_model k dbg a = PanicV <-> run_tab ops_intarith_spec k dbg a = PanicV).
+Proof. exact intarith_panics_iff_documented. Qed.
+Print Assumptions C11_intarith_panics_iff_documented.
+
+Theorem C11_intarith_total_forms_never_panic : forall k dbg a,
+  In k intarith_total_keys -> typed intarith_total_ty k a -> run_tab ops_intarith_model k dbg a <> PanicV.
+Proof. exact intarith_total_forms_never_panic. Qed.
+Print Assumptions C11_intarith_total_forms_never_panic.
+
+(* ================================================================== intdiv *)
+Theorem C11_intdiv_panics_iff_documented : forall k dbg a,
+  In k intdiv_keys -> wf_args a -> typed intdiv_ty k a -> run_tab ops_intdiv_spec k dbg a <> Unsupported ->
+  (run_tab ops_intdiv_model k dbg a = PanicV <-> run_tab ops_intdiv_spec k dbg a = PanicV).
+Proof. exact intdiv_panics_iff_documented. Qed.
+Print Assumptions C11_intdiv_panics_iff_documented.
+
+Theorem C11_intdiv_total_forms_never_panic : forall k dbg a,
+  In k intdiv_total_keys -> typed intdiv_total_ty k a -> run_tab ops_intdiv_model k dbg a <> PanicV.
+Proof. exact intdiv_total_forms_never_panic. Qed.
+Print Assumptions C11_intdiv_total_forms_never_panic.
+
+(* ================================================================== conv *)
+Theorem C11_conv_panics_iff_documented : forall k dbg a,
+  In k conv_keys -> wf_args a -> typed conv_ty k a -> run_tab ops_conv_spec k dbg a <> Unsupported ->
+  (run_tab ops_conv_model k dbg a = PanicV <-> run_tab ops_conv_spec k dbg a = PanicV).
+Proof. exact conv_panics_iff_documented. Qed.
+Print Assumptions C11_conv_panics_iff_documented.
+
+Theorem C11_conv_total_forms_never_panic : forall k dbg a,
+  In k conv_total_keys -> typed conv_total_ty k a -> run_tab ops_conv_model k dbg a <> PanicV.
+Proof. exact conv_total_forms_never_panic. Qed.
+Print Assumptions C11_conv_total_forms_never_panic.
+
+(* ================================================================== rand *)
+Theorem C11_rand_panics_iff_documented : forall k dbg a,
+  In k rand_keys -> wf_args a -> typed rand_ty k a -> run_tab ops_rand_spec k dbg a <> Unsupported ->
+  (run_tab ops_rand_model k dbg a = PanicV <-> run_tab ops_rand_spec k dbg a = PanicV).
+Proof. exact rand_panics_iff_documented. Qed.
+Print Assumptions C11_rand_panics_iff_documented.
+
+Theorem C11_rand_total_forms_never_panic : forall k dbg a,
+  In k rand_total_keys -> typed rand_total_ty k a -> run_tab ops_rand_model k dbg a <> PanicV.
+Proof. exact rand_total_forms_never_panic. Qed.
+Print Assumptions C11_rand_total_forms_never_panic.
+
+(* ================================================================== sqrt *)
+Theorem C11_sqrt_panics_iff_documented : forall k dbg a,
+  In k sqrt_keys -> wf_args a -> typed sqrt_ty k a -> run_tab ops_sqrt_spec k dbg a <> Unsupported ->
+  (run_tab ops_sqrt_model k dbg a = PanicV <-> run_tab ops_sqrt_spec k dbg a = PanicV).
+Proof. exact sqrt_panics_iff_documented. Qed.
+Print Assumptions C11_sqrt_panics_iff_documented.
+
+Theorem C11_sqrt_total_forms_never_panic : forall k dbg a,
+  In k sqrt_total_keys -> typed sqrt_total_ty k a -> run_tab ops_sqrt_model k dbg a <> PanicV.
+Proof. exact sqrt_total_forms_never_panic. Qed.
+Print Assumptions C11_sqrt_total_forms_never_panic.
+
+(* ================================================================== coverage of the tables *)
+Theorem C11_key_lists_cover_tables :
+  covers addsub_keys ops_addsub_model = true /\
+  covers mul_keys ops_mul_model = true /\
+  covers div_keys ops_div_model = true /\
+  covers bits_keys Bits.ops_bits_model = true /\
+  covers cmp_keys ops_cmp_model = true /\
+  covers modarith_keys ops_modarith_model = true /\
+  covers intarith_keys ops_intarith_model = true /\
+  covers intdiv_keys ops_intdiv_model = true /\
+  covers conv_keys ops_conv_model = true /\
+  covers rand_keys ops_rand_model = true /\
+  covers sqrt_keys ops_sqrt_model = true.
 Proof.
-  intros Hx Hy.
-  assert (E1 := uint_mul_ops_correct "uint.mul" dbg x y Hx Hy ltac:(simpl; tauto)).
-  assert (E2 := uint_mul_ops_correct "uint.checked_mul" dbg x y Hx Hy ltac:(simpl; tauto)).
-  rewrite E1, E2. cbn. unfold sp_panicking, sp_checked, sp_prod, ev, ln, arg. cbn [nth length].
-  destruct (sp_fits (length x) (eval x * eval y)); split; try split; intros; try discriminate; try reflexivity.
+  exact (conj addsub_cover (conj mul_cover (conj div_cover (conj bits_cover (conj cmp_cover (conj modarith_cover (conj intarith_cover (conj intdiv_cover (conj conv_cover (conj rand_cover sqrt_cover)))))))))).
 Qed.
+Print Assumptions C11_key_lists_cover_tables.
 
+(* ================================================================== internal facts (the anchors of the property) *)
+
+(** src/uint/div_limb.rs:125-162, src/uint/div.rs:113-121, 808-824: with a non-zero divisor (and, for the constant-time
+    forms, operands of one width) no division entry panics -- neither the `expect` of the wrappers nor anything inside
+    div2by1 / div3by2 / the Knuth loops as modelled -- in the release profile and in the debug profile alike *)
+Theorem C11_div_nonzero_divisor_never_panics : forall k dbg a, In k div_divisor_keys ->
+  wf_args a -> typed div_nz_ty k a -> eval (arg 1 a) <> 0 -> run_tab ops_div_model k dbg a <> PanicV.
+Proof. exact div_nonzero_divisor_never_panics. Qed.
+Print Assumptions C11_div_nonzero_divisor_never_panics.
+
+(** src/uint/div_limb.rs:125-126, 140: the three debug assertions of div2by1 (written as a boolean function of the values
+    the model computes: d >= 2^63, u1 < d, and `r < d || q1 < Word::MAX` between the two masked corrections) hold for every
+    call that satisfies the documented precondition *)
+Theorem C11_div2by1_asserts_hold : forall u1 u0 rc,
+  is_word u0 -> 0 <= u1 < r_d rc -> normalized (r_d rc) -> recip_ok (r_d rc) (r_v rc) ->
+  div2by1_dbg_asserts u1 u0 rc = true.
+Proof. exact div2by1_asserts_hold. Qed.
+Print Assumptions C11_div2by1_asserts_hold.
+
+(** src/uint/div_limb.rs:161-162 and the masked select below them: div3by2's own assertions and those of the inner
+    div2by1 on `select(u2, 0, u2 == d)` hold on both sides of the select (u2 < d and u2 = d) *)
+Theorem C11_div3by2_asserts_hold : forall u2 u1 u0 rc v0,
+  normalized (r_d rc) -> recip_ok (r_d rc) (r_v rc) -> r_shift rc = 0 -> is_word u1 -> 0 <= u2 <= r_d rc ->
+  div3by2_dbg_asserts u2 u1 u0 rc v0 = true.
+Proof. exact div3by2_asserts_hold. Qed.
+Print Assumptions C11_div3by2_asserts_hold.
+
+(** every iteration of the division by one limb (Uint / BoxedUint div_rem_limb, rem_limb, div_limb; Reciprocal::new of
+    any non-zero limb, any dividend): the running remainder stays below the normalised divisor *)
+Theorem C11_div_rem_limb_asserts_hold : forall u d, wf u -> 0 < d < B ->
+  let rc := recip_new d in
+  let '(us, uhi) := shl_limb u (r_shift rc) in divlimb_go_asserts (rev us) uhi rc = true.
+Proof. exact div_rem_limb_asserts_hold. Qed.
+Print Assumptions C11_div_rem_limb_asserts_hold.
+
+(** src/uint/div.rs:113-121, the discarded-branch protection of Uint::div_rem: on the branch whose result is thrown away
+    the final div2by1 runs on select(0, x_hi, false) = 0 and its assertions hold whatever x_hi is; without the select they
+    can fail (x_hi = MAX, d = 2^63) *)
+Theorem C11_div_rem_discarded_branch_asserts_hold : forall x_hi x_lo rc,
+  normalized (r_d rc) -> recip_ok (r_d rc) (r_v rc) -> is_word x_lo ->
+  div2by1_dbg_asserts (sel false 0 x_hi) x_lo rc = true.
+Proof. exact div_rem_discarded_branch_asserts_hold. Qed.
+Print Assumptions C11_div_rem_discarded_branch_asserts_hold.
+
+Theorem C11_div_rem_unprotected_would_fire : exists x_hi x_lo rc,
+  normalized (r_d rc) /\ recip_ok (r_d rc) (r_v rc) /\ is_word x_lo /\ is_word x_hi /\
+  div2by1_dbg_asserts x_hi x_lo rc = false.
+Proof. exact div_rem_unprotected_would_fire. Qed.
+Print Assumptions C11_div_rem_unprotected_would_fire.
+
+(** src/const_choice.rs:40 (`from_word_mask` expects 0 or Word::MAX): the value handed to it is always the borrow of a
+    subtraction chain *)
+Theorem C11_from_word_mask_assert_holds :
+  (forall a b bw, is_word a -> is_word b -> is_word bw -> mask_ok (snd (sbb a b bw))) /\
+  (forall a b, wf a -> wf b -> length a = length b -> mask_ok (snd (sbb_limbs a b 0))).
+Proof. exact (conj mask_of_sbb_word mask_of_sbb_limbs). Qed.
+Print Assumptions C11_from_word_mask_assert_holds.
+
+(** src/const_choice.rs:48, 63 (`from_word_lsb` / `from_u32_lsb` expect 0 or 1): the values handed to them by
+    from_word_msb / nonzero / eq / lt / le (the top bit of a word), by saturating_add and carrying_neg (the carry of a
+    chain), by the u32 predicates (the top bit of a u32) and by the shift ladder (a masked bit) *)
+Theorem C11_from_lsb_assert_holds :
+  (forall x y, is_word x -> is_word y ->
+     lsb_ok (x / 2 ^ 63) /\ lsb_ok (wor x (wneg x) / 2 ^ 63) /\
+     lsb_ok (wor (wxor x y) (wneg (wxor x y)) / 2 ^ 63) /\
+     lsb_ok (wor (wand (wnot x) y) (wand (wor (wnot x) y) (wsub x y)) / 2 ^ 63) /\
+     lsb_ok (wand (wor (wnot x) y) (wor (wxor x y) (wnot (wsub y x))) / 2 ^ 63)) /\
+  (forall a b, wf a -> wf b -> length a = length b -> lsb_ok (snd (adc_limbs a b 0))) /\
+  (forall a, wf a -> lsb_ok (snd (neg_limbs a 1))) /\
+  (forall v, 0 <= v < U32 -> lsb_ok (v / 2 ^ 31)) /\
+  (forall shift i, lsb_ok (Z.land (shift / 2 ^ i) 1)).
+Proof.
+  exact (conj lsb_args_of_predicates (conj lsb_of_adc_carry (conj lsb_of_neg_carry (conj lsb_of_u32_top_bit lsb_of_ladder_bit)))).
+Qed.
+Print Assumptions C11_from_lsb_assert_holds.
+
+(** src/uint/mul_mod.rs:62-65, src/uint/boxed/mul_mod.rs:59-62 (finding F2, repaired): `(carry + 1) * c` is computed in
+    the wide word; the model of the repaired code has no trap, in either profile and for any multiplication routine:
+    its only panic is the division by the zero modulus 2^64 - c at one limb, i.e. c = 0 *)
+Theorem C11_mul_mod_special_panics_iff : forall dbg mulf a b c,
+  mul_mod_special dbg mulf a b c = None <-> length a = 1%nat /\ wsub 0 c = 0.
+Proof. exact mul_mod_special_none_iff. Qed.
+Print Assumptions C11_mul_mod_special_panics_iff.
+
+Theorem C11_mul_mod_special_never_panics : forall dbg mulf a b c, 1 <= c < B -> mul_mod_special dbg mulf a b c <> None.
+Proof. exact mul_mod_special_never_panics. Qed.
+Print Assumptions C11_mul_mod_special_never_panics.
+
+(** src/uint/boxed/add.rs:18-26, sub.rs:18-26 (finding F7, repaired): `BoxedUint += / -= rhs` for ANY two precisions and in
+    both profiles returns the exact sum / difference at the receiver's precision or panics; never a wrapped value *)
+Theorem C11_boxed_assign_precision_rule : forall dbg x y, wf x -> wf y ->
+  (forall r, boxed_add_assign_op dbg x y = Val [r] -> eval r = eval x + eval y /\ length r = length x) /\
+  (forall r, boxed_sub_assign_op dbg x y = Val [r] -> eval r = eval x - eval y /\ length r = length x) /\
+  (boxed_add_assign_op dbg x y = PanicV <-> Bn (length x) <= eval x + eval y) /\
+  (boxed_sub_assign_op dbg x y = PanicV <-> eval x < eval y).
+Proof. exact boxed_assign_precision_rule. Qed.
+Print Assumptions C11_boxed_assign_precision_rule.
+
+(** the debug-only assertions of Ord::cmp (Limb, BoxedUint) and of BoxedUint::ct_select / ct_swap at equal precision
+    never fire: the debug profile returns what the release profile returns *)
+Theorem C11_cmp_debug_assertions_never_fire : forall a, wf_args a ->
+  limb_cmp true (sarg 0 a) (sarg 1 a) = limb_cmp false (sarg 0 a) (sarg 1 a) /\
+  boxed_cmp true (arg 0 a) (arg 1 a) = boxed_cmp false (arg 0 a) (arg 1 a) /\
+  (Limbs.ln 0 a = Limbs.ln 1 a -> forall c,
+     boxed_ct_select true (arg 0 a) (arg 1 a) c = boxed_ct_select false (arg 0 a) (arg 1 a) c /\
+     boxed_ct_swap true (arg 0 a) (arg 1 a) c = boxed_ct_swap false (arg 0 a) (arg 1 a) c).
+Proof. exact cmp_debug_assertions_never_fire. Qed.
+Print Assumptions C11_cmp_debug_assertions_never_fire.
+
+(** termination: the fuel the model passes to the data-dependent loop of sqrt_vartime always suffices (the model maps
+    "out of fuel" to Unsupported), and the `expect` on the initial-guess shift never fires *)
+Theorem C11_sqrt_never_panics_and_fuel_suffices : forall k dbg a, In k sqrt_keys -> wf (arg 0 a) -> arg 0 a <> [] ->
+  run_tab ops_sqrt_model k dbg a <> PanicV /\ run_tab ops_sqrt_model k dbg a <> Unsupported.
+Proof. exact sqrt_never_panics_and_fuel_suffices. Qed.
+Print Assumptions C11_sqrt_never_panics_and_fuel_suffices.
+
+(** a fixed-size copy from an attacker-sized payload (serde; the DER twin of src/uint/encoding/der.rs belongs to the C18
+    area): the inner fixed-width decoder is only reached with exactly 8n bytes -- no panic for any byte string *)
+Theorem C11_serde_de_never_panics : forall n bs, uint_serde_de n bs <> PanicV.
+Proof. exact uint_serde_de_never_panics. Qed.
+Print Assumptions C11_serde_de_never_panics.
+
+(** statement of round 1, kept: `*` on Uint panics exactly on overflow; checked_mul never panics *)
 Theorem C11_uint_mul_panics_iff_overflow : forall x y dbg, wf x -> wf y ->
   (op_of ops_mul_model "uint.mul" dbg [x; y] = PanicV <-> sp_fits (length x) (eval x * eval y) = false) /\
   op_of ops_mul_model "uint.checked_mul" dbg [x; y] <> PanicV.
 Proof. exact uint_mul_panics_iff. Qed.
 Print Assumptions C11_uint_mul_panics_iff_overflow.
+
+(* ================================================================== non-vacuity *)
+(** per area a key that really panics on one input and returns a value on another (2^64 - 1 + 1 overflows, 5 / 0,
+    1 << 64, expect on none, zero modulus, i64::MAX + 1, MIN / -1, a 3-byte slice for a 1-limb decoder, an exhausted RNG) *)
+Example C11_nonvacuous_panics :
+  run_tab ops_addsub_model "uint.add" false [[MAXW]; [1]] = PanicV /\
+  run_tab ops_addsub_model "uint.add" false [[1]; [1]] = Val [[2]] /\
+  run_tab ops_addsub_model "boxed.add_assign" true [[MAXW]; [0; 1]] = PanicV /\
+  run_tab ops_mul_model "uint.mul" true [[MAXW]; [2]] = PanicV /\
+  run_tab ops_mul_model "uint.mul" true [[3]; [2]] = Val [[6]] /\
+  run_tab ops_div_model "uint.div_plain" false [[5]; [0]] = PanicV /\
+  run_tab ops_div_model "uint.div_plain" true [[5]; [2]] = Val [[2]] /\
+  run_tab ops_div_model "uint.checked_div" true [[5]; [0]] = NoneV /\
+  run_tab Bits.ops_bits_model "uint.shl" false [[1]; [64]] = PanicV /\
+  run_tab Bits.ops_bits_model "uint.shl" false [[1]; [1]] = Val [[2]] /\
+  run_tab Bits.ops_bits_model "uint.overflowing_shl" true [[1]; [64]] = NoneV /\
+  run_tab ops_cmp_model "uint.ctopt_expect" false [[7]; [0]] = PanicV /\
+  run_tab ops_cmp_model "uint.ctopt_expect" false [[7]; [1]] = Val [[7]] /\
+  run_tab ops_modarith_model "uint.mul_mod_trait" false [[1]; [1]; [0]] = PanicV /\
+  run_tab ops_modarith_model "uint.mul_mod_trait" false [[3]; [4]; [5]] = Val [[2]] /\
+  run_tab ops_intarith_model "sint.add" false [[2 ^ 63 - 1]; [1]] = PanicV /\
+  run_tab ops_intarith_model "sint.add" false [[1]; [1]] = Val [[2]] /\
+  run_tab ops_intdiv_model "sdiv.div_expect" false [[2 ^ 63]; [MAXW]] = PanicV /\
+  run_tab ops_intdiv_model "sdiv.div_expect" false [[6]; [3]] = Val [[2]] /\
+  run_tab ops_conv_model "uint.from_be_slice" false [[1; 2; 3]; [1]] = PanicV /\
+  run_tab ops_conv_model "uint.from_be_slice" false [[0; 0; 0; 0; 0; 0; 0; 9]; [1]] = Val [[9]] /\
+  run_tab ops_rand_model "uint.random" false [[]; [1]; [0]] = PanicV /\
+  run_tab ops_rand_model "uint.random" false [[]; [1]; [1]] = ErrV 9 /\
+  run_tab ops_rand_model "uint.random" false [[7]; [1]; [0]] = Val [[7]; [1]; [8]] /\
+  run_tab ops_sqrt_model "uint.checked_sqrt" true [[9]] = Val [[3]] /\
+  run_tab ops_sqrt_model "uint.checked_sqrt" true [[8]] = NoneV.
+Proof. vm_compute. repeat split; reflexivity. Qed.
+
+(** the profile argument matters: BoxedUint::ct_select on operands of different precision trips the debug assertion
+    only (the typing side condition of "boxed.select" excludes this input from the first statement; open finding F16) *)
+Example C11_nonvacuous_profile :
+  run_tab ops_cmp_model "boxed.select" true [[1]; [2; 3]; [1]] = PanicV /\
+  run_tab ops_cmp_model "boxed.select" false [[1]; [2; 3]; [1]] = Val [[2]].
+Proof. vm_compute. repeat split; reflexivity. Qed.
+
+(** the side conditions and the domain hypothesis are satisfiable and the key lists are not empty *)
+Example C11_nonvacuous_hyps :
+  In "uint.add" addsub_keys /\ wf_args [[MAXW]; [1]] /\ typed addsub_ty "uint.add" [[MAXW]; [1]] /\
+  run_tab ops_addsub_spec "uint.add" false [[MAXW]; [1]] = PanicV /\
+  In "uint.overflowing_shl" bits_total_keys /\ typed bits_total_ty "uint.overflowing_shl" [[1]; [64]].
+Proof.
+  split; [apply mem_str_In; vm_compute; reflexivity|].
+  split; [repeat constructor; vm_compute; congruence|].
+  split; [vm_compute; reflexivity|].
+  split; [vm_compute; reflexivity|].
+  split; [apply mem_str_In; vm_compute; reflexivity|].
+  unfold typed. cbn [lookup bits_total_ty String.eqb Ascii.eqb Bool.eqb]. unfold ladder_ty, shift_u32.
+  split; [repeat constructor; vm_compute; congruence|].
+  split; [discriminate|]. vm_compute. split; reflexivity.
+Qed.
